@@ -1,0 +1,6 @@
+//go:build !verif
+
+package rux
+
+// hooks for the conformance harness, see verif_on.go. no-ops without the build tag "verif".
+func verifCacheOp(c *cachedRoutes, op, key string) {}
